@@ -6,6 +6,7 @@ return the same ChangeSet, failures and unfixed findings as the real run.  Symbo
 """
 from pathlib import Path
 
+import codemodder.context as _ctxmod
 import codemodder.dependency_management.pyproject_writer as pw
 import codemodder.dependency_management.requirements_txt_writer as rw
 import codemodder.dependency_management.setup_py_writer as sw
@@ -21,7 +22,7 @@ from vlib.core import NoLog, fin
 from vlib.main import Xh
 from vlib.stubs import FakeFS
 
-for _m in (pw, rw, sw, cw):
+for _m in (pw, rw, sw, cw, _ctxmod):
     if hasattr(_m, "logger"):
         _m.logger = NoLog()
 
@@ -32,7 +33,7 @@ def _same(o_dry, o_real) -> bool:
 
 def dry_libcst(kind: int, r1: bool, c1: bool, a1: bool, r2: bool, c2: bool, a2: bool, nf: int) -> bool:
     """LibcstTransformerPipeline.apply: dry run writes nothing and returns what the real run returns.
-    pre: 0 <= kind < 4 and 0 <= nf <= 1
+    pre: 0 <= kind < 5 and 0 <= nf <= 1
     post: _
     """
     _, _, od = skel.run_libcst(kind, True, (r1, c1, a1), (r2, c2, a2), nf)
@@ -218,6 +219,64 @@ def dry_writer_setuppy(variant: int, declared: bool, two_deps: bool) -> bool:
     return _dry_writer(3, variant, declared, two_deps)
 
 
+class _RepoMgr:
+    def __init__(self, stores):
+        self.package_stores = stores
+
+
+def dry_process_dependencies(n_stores: int, ok0: bool, ok1: bool, ok2: bool, dry_run: bool, has_deps: bool) -> bool:
+    """CodemodExecutionContext.process_dependencies over n <= 3 manifests whose writers succeed or decline
+    (symbolic): every writer is invoked with the context's dry_run flag, stores are tried in order until the
+    first success, at most one store is recorded, and the recorded ChangeSet is that writer's.
+    pre: 0 <= n_stores <= 3
+    post: _
+    """
+    import codemodder.dependency_management as dm_pkg
+    from codemodder.codetf import Change, ChangeSet
+    from codemodder.context import CodemodExecutionContext
+
+    oks = [ok0, ok1, ok2][:n_stores]
+    stores = [PackageStore(type=FileType.REQ_TXT, file=Path("/d/req%d.txt" % i), dependencies=set(), py_versions=[]) for i in range(n_stores)]
+    calls = []
+
+    class DM:
+        def __init__(self, store, directory):
+            self.store = store
+
+        def write(self, dependencies, dry_run=False):
+            idx = stores.index(self.store)
+            calls.append((idx, dry_run))
+            if oks[idx]:
+                return ChangeSet(path="req%d.txt" % idx, diff="d", changes=[Change(lineNumber=1, description="x")])
+            return None
+
+    with NoTracing():
+        ctx = CodemodExecutionContext(Path("/d"), dry_run, False, None, None, _RepoMgr(stores), [], [], {}, 1)
+    if has_deps:
+        ctx.add_dependencies("cm", {DefusedXML})
+    orig = dm_pkg.DependencyManager
+    dm_pkg.DependencyManager = DM
+    try:
+        record = ctx.process_dependencies("cm")
+    finally:
+        dm_pkg.DependencyManager = orig
+    if not has_deps:
+        return fin(calls == [] and record == {} and ctx.get_changesets("cm") == [])
+    first_ok = None
+    for i, ok in enumerate(oks):
+        if ok:
+            first_ok = i
+            break
+    exp_calls = [(i, dry_run) for i in range(n_stores if first_ok is None else first_ok + 1)]
+    okk = calls == exp_calls
+    if first_ok is None:
+        okk = okk and ctx.get_changesets("cm") == [] and record == {DefusedXML: None}
+    else:
+        okk = okk and [c.path for c in ctx.get_changesets("cm")] == ["req%d.txt" % first_ok] and record == {DefusedXML: stores[first_ok]}
+        okk = okk and ctx._dependency_update_by_codemod.get("cm") is stores[first_ok]
+    return fin(okk)
+
+
 def planted_dry_write(kind: int, c1: bool, a1: bool) -> bool:
     """Self-test: a pipeline that ignores dry_run must be refuted.
     pre: 0 <= kind < 4
@@ -251,6 +310,7 @@ def warmup():
                 _run_writer(k, v, d, True, True)
                 _run_writer(k, v, d, False, False)
     dry_libcst(0, False, True, True, False, True, True, 1)
+    dry_process_dependencies(3, False, True, False, True, True)
     dry_regex(0, True, True, 1, 2)
     dry_xml(False, False, True, 1, 2, False)
 
@@ -262,6 +322,7 @@ SPEC = {
         "src/codemodder/codemods/libcst_transformer.py",
         "src/codemodder/codemods/regex_transformer.py",
         "src/codemodder/codemods/xml_transformer.py",
+        "src/codemodder/context.py",
         "src/codemodder/dependency_management/dependency_manager.py",
         "src/codemodder/dependency_management/base_dependency_writer.py",
         "src/codemodder/dependency_management/requirements_txt_writer.py",
@@ -273,6 +334,7 @@ SPEC = {
         "LibcstTransformerPipeline.apply",
         "RegexTransformerPipeline.apply / SastRegexTransformerPipeline._apply",
         "XMLTransformerPipeline.apply",
+        "CodemodExecutionContext.process_dependencies / add_dependencies / add_changesets",
         "DependencyManager.write, DependencyWriter.write/add, RequirementsTxtWriter.add_to_file, SetupCfgWriter.add_to_file/build_new_lines, PyprojectWriter.add_to_file, SetupPyWriter.add_to_file",
     ],
     "bounds": {
@@ -294,6 +356,7 @@ SPEC = {
         Xh("dry_writer_setupcfg", 150, 300),
         Xh("dry_writer_pyproject", 150, 300),
         Xh("dry_writer_setuppy", 150, 300),
+        Xh("dry_process_dependencies", 150, 300),
         Xh("planted_dry_write", 60, 120, twin=False, expect="refuted"),
     ],
 }
